@@ -54,8 +54,8 @@ def run(tier):
         # least one byte (realloc(p, 0) frees or invents a buffer: an empty body is delivered as no buffer; rule shared with C14)
         from . import c14
         c14.realloc_nonzero_rule(prog, rep, only_files=(H.UNIT,))
-        if H.header_index(prog, rep) < 4:
-            rep.defer_broken("W9-index: fewer than 4 subscripts of the parsed-header array found")
+        if H.header_index(prog, rep) < 2:
+            rep.defer_broken("W9-index: fewer than 2 subscripts of the parsed-header array found")
         H.chunk_framing(prog, rep)
         if H.premature_verdict(prog, rep) < 1:
             rep.defer_broken("W11: no handler that waits for a fixed number of bytes found in http.c")
